@@ -107,7 +107,8 @@ PrintableD(v) ==
     [] v.t = "float" -> v.sh = 0         \* how a fraction is spelled is C01's subject, not claimed here
     [] v.t = "list" -> \A i \in 1..Len(v.v) : PrintableD(v.v[i])
     [] v.t = "map" -> KeysOK(v.v) /\ \A k \in DOMAIN v.v : PrintableD(v.v[k])
-    [] OTHER -> TRUE
+    [] v.t \in {"null", "bool", "int"} -> TRUE
+    [] OTHER -> FALSE                               \* a tag the encoding could not carry exactly
 
 RECURSIVE TextD(_, _), JoinListD(_, _, _), JoinMapD(_, _, _, _)
 TextD(v, ord) ==
@@ -196,12 +197,14 @@ TimeOpts == {[lc |-> TRUE, tf |-> "stamp"], [lc |-> FALSE, tf |-> "rfc3339"],
 
 \* the instants the harness knows, and their text under each layout
 \* (jan1 and its RFC3339 text are pinned by convert_test.go)
-TimeIds == {"jan1", "nov10"}
+TimeIds == {"jan1", "nov10", "leap"}      \* leap = 2020-02-29 12:34:56.789 UTC (a fraction of a second)
 TimeText(id, tf) ==
   CASE id = "jan1"  /\ tf = "rfc3339" -> "2014-01-01T00:00:00Z"
     [] id = "jan1"  /\ tf = "stamp"   -> "Jan  1 00:00:00"
     [] id = "nov10" /\ tf = "rfc3339" -> "2009-11-10T23:04:05+01:00"
     [] id = "nov10" /\ tf = "stamp"   -> "Nov 10 23:04:05"
+    [] id = "leap"  /\ tf = "rfc3339" -> "2020-02-29T12:34:56Z"      \* the layout has no fraction
+    [] id = "leap"  /\ tf = "stamp"   -> "Feb 29 12:34:56"
 
 \* with an empty TimeFormat the documentation promises "ISO-8601": the spec
 \* says only that (the harness checks that the string denotes the instant)
@@ -235,13 +238,15 @@ MarshalResult(m) ==
 \* Readings: where neither the tests nor the statement decide, a consistent
 \* implementation may choose; an observation is accepted if it is the
 \* conversion under SOME reading (one reading for the whole value).
-\*   emb    : an embedded struct is a field named after its type ("nest",
-\*            what reflection says) or its fields are promoted ("flat",
-\*            what encoding/json does)
-\*   nilmap : a nil map is an empty map (like the pinned nil slice -> empty
-\*            list) or null (like a nil pointer)
-Rd0 == [emb |-> "nest", nilmap |-> "empty"]
-AllReadings == [emb : {"nest", "flat"}, nilmap : {"empty", "null"}]
+\*   emb : an embedded struct is a field named after its type ("nest", what
+\*         reflection says) or its fields are promoted ("flat", what
+\*         encoding/json does).  No test of the repository embeds a struct.
+\* (A nil map is NOT such a case: the repository's tests render templates
+\* with a nil map[string]interface{} as data - features_test.go
+\* runFeatureTests, Tofu.Render(d(nil)) - so a nil map must convert to a
+\* map, like the pinned nil slice -> empty list.)
+Rd0 == [emb |-> "nest"]
+AllReadings == [emb : {"nest", "flat"}]
 
 IsStructLike(g) == g.g = "struct" \/ (g.g = "ptr" /\ ~g.nil /\ g.v.g = "struct")
 
@@ -255,8 +260,7 @@ Convert(g, o, rd) ==
     [] g.g = "time" -> IF o.tf = "empty" THEN IsoTime(g.v) ELSE S(TimeText(g.v, o.tf))
     [] g.g \in {"slice", "array"} -> L([i \in 1..Len(g.v) |-> Convert(g.v[i], o, rd)])
     [] g.g = "map" ->
-         IF g.nil THEN (IF rd.nilmap = "null" THEN Null ELSE M(EmptyFn))
-         ELSE M([k \in DOMAIN g.v |-> Convert(g.v[k], o, rd)])
+         IF g.nil THEN M(EmptyFn) ELSE M([k \in DOMAIN g.v |-> Convert(g.v[k], o, rd)])
     [] g.g = "struct" -> M(StructMap(g.v, o, rd))
     [] g.g \in {"ptr", "iface"} ->
          IF g.nil THEN (IF "typed_nil_not_null" \in Dev /\ g.g = "ptr" THEN Undef ELSE Null)
@@ -282,7 +286,7 @@ Promoted(fs, i, o, rd) ==
                    ELSE <<>>
        IN here @@ Promoted(fs, i + 1, o, rd)
 
-RECURSIVE HasEmb(_), HasNilMap(_), HasTime(_), HasArray(_), Depth(_)
+RECURSIVE HasEmb(_), HasTime(_), HasArray(_), Depth(_)
 Kids(g) ==
   CASE g.g \in {"slice", "array"} -> {g.v[i] : i \in 1..Len(g.v)}
     [] g.g = "map" -> {g.v[k] : k \in DOMAIN g.v}
@@ -290,16 +294,13 @@ Kids(g) ==
     [] g.g \in {"ptr", "iface"} -> IF g.nil THEN {} ELSE {g.v}
     [] OTHER -> {}
 HasEmb(g) == (g.g = "struct" /\ \E i \in 1..Len(g.v) : g.v[i].emb) \/ \E k \in Kids(g) : HasEmb(k)
-HasNilMap(g) == (g.g = "map" /\ g.nil) \/ \E k \in Kids(g) : HasNilMap(k)
 HasTime(g) == g.g = "time" \/ \E k \in Kids(g) : HasTime(k)
 HasArray(g) == g.g = "array" \/ \E k \in Kids(g) : HasArray(k)
 Depth(g) == IF Kids(g) = {} THEN 0
             ELSE LET ds == {Depth(k) : k \in Kids(g)} IN
                  (CHOOSE d \in ds : \A e \in ds : e <= d) + (IF g.g = "iface" THEN 0 ELSE 1)
 
-ReadingsFor(g) ==
-  [emb : IF HasEmb(g) THEN {"nest", "flat"} ELSE {"nest"},
-   nilmap : IF HasNilMap(g) THEN {"empty", "null"} ELSE {"empty"}]
+ReadingsFor(g) == [emb : IF HasEmb(g) THEN {"nest", "flat"} ELSE {"nest"}]
 
 Acceptable(g, o) == {Convert(g, o, rd) : rd \in ReadingsFor(g)}
 Accept(g, o, obs) == obs \in Acceptable(g, o)
@@ -341,14 +342,15 @@ IdempotentLaw(g, o) ==
   LET v == Convert(g, o, Rd0) IN
   \A o2 \in MainOpts \cup TimeOpts : \A rd \in AllReadings : Convert(GValue(v), o2, rd) = v
 
-\* a nil pointer / nil interface anywhere becomes null, never undefined
+\* typed nils: a nil pointer / nil interface anywhere becomes null, a nil
+\* slice the empty list, a nil map the empty map - never undefined
 RECURSIVE NoUndefFromNil(_, _)
 NoUndefFromNil(g, v) ==
   CASE g.g \in {"ptr", "iface"} -> IF g.nil THEN v = Null ELSE NoUndefFromNil(g.v, v)
     [] g.g \in {"slice", "array"} ->
          v.t = "list" /\ Len(v.v) = Len(g.v) /\ \A i \in 1..Len(g.v) : NoUndefFromNil(g.v[i], v.v[i])
-    [] g.g = "map" /\ ~g.nil ->
-         v.t = "map" /\ DOMAIN g.v \subseteq DOMAIN v.v /\ \A k \in DOMAIN g.v : NoUndefFromNil(g.v[k], v.v[k])
+    [] g.g = "map" ->
+         v.t = "map" /\ DOMAIN g.v = DOMAIN v.v /\ \A k \in DOMAIN g.v : NoUndefFromNil(g.v[k], v.v[k])
     [] OTHER -> TRUE
 NilLaw(g, o) == \A rd \in ReadingsFor(g) : NoUndefFromNil(g, Convert(g, o, rd))
 
@@ -434,7 +436,7 @@ Leaves == {GNil, GBool(TRUE), GBool(FALSE)} \cup IntLeaves \cup FloatLeaves \cup
 \* reduced sets for the positions that are squared
 R0(size) ==
   {GNil, GBool(FALSE), GInt("uint8", 200), GFloat("float32", 5, 1), GFloatSym("float64", "nan"),
-   GStr(""), GTime("jan1"), GValue(L(<<I(1)>>))}
+   GStr(""), GTime("leap"), GValue(L(<<I(1)>>))}
   \cup (IF size >= 2 THEN {GBool(TRUE), GInt("int64", 0), GBigInt("int64", "-9223372036854775808"),
                             GFloat("float64", 0, 0), GStr("a"), GMarshaler("idurl", [id |-> 1, url |-> "u"]),
                             GValue(Undef), GValue(M("a" :> Null))}
